@@ -34,11 +34,14 @@ def lattice_cases(rnd, quick):
     for acc in ACC:
         for k in range(0, 4):
             for bits in itertools.combinations(BITS, k):
-                combos.append(acc | (O["NONBLOCK"]) | sum(bits))
+                # (O_NONBLOCK keeps FIFO opens from blocking; openat2 rejects it -- like everything but
+                #  O_DIRECTORY|O_NOFOLLOW|O_CLOEXEC -- together with O_PATH)
+                combos.append(acc | (0 if acc == O["PATH"] else O["NONBLOCK"]) | sum(bits))
     combos = sorted(set(combos))
+    always = [O["PATH"] | x for x in (0, O["DIRECTORY"], O["NOFOLLOW"], O["DIRECTORY"] | O["NOFOLLOW"], O["CLOEXEC"], O["DIRECTORY"] | O["CLOEXEC"])]
     if quick:
         rnd.shuffle(combos)
-        combos = combos[:160]
+        combos = sorted(set(combos[:160] + always))
     cases, idx = [], []
     for fl in combos:
         calls = [dict(op="open", path=p, oflags=fl) for p in LATTICE_PATHS]
